@@ -3,13 +3,18 @@ package monitors
 import (
 	"bytes"
 	"context"
+	"crypto/tls"
 	"encoding/binary"
 	"fmt"
+	"io"
 	"log/slog"
+	"math/rand/v2"
 	"net"
 	"net/netip"
+	"runtime"
 	"strings"
 	"sync"
+	"sync/atomic"
 	"time"
 
 	"example.com/scion-time/core/client"
@@ -428,6 +433,126 @@ func c11ServerLeg(r *ev.Run) {
 	if usedOK > 20 {
 		r.Class("fresh-cookies-accepted-in-later-requests")
 	}
+	if r.Only() == "" {
+		c11Concurrent(r, tgt, srv)
+	}
+}
+
+// c11Concurrent: several NTS sessions, each on a socket of its own (so that different listener
+// goroutines serve them), ask for eight cookies at the same time. Afterwards every cookie a
+// session received is spent by that session: it must open to that session's keys, i.e. the
+// request authenticated under the session's C2S key must be answered under its S2C key.
+func c11Concurrent(r *ev.Run, tgt *Target, srv netip.Addr) {
+	const sessions = 12
+	rounds := r.Pick(160, 3000)
+	type sess struct {
+		d      ntske.Data
+		uc     *peer.UDPClient
+		fresh  [][]byte
+		lost   int
+		unauth []string
+	}
+	var ss []*sess
+	for i := 0; i < sessions; i++ {
+		d, err := fetchNTS(srv)
+		if err != nil || len(d.Cookie) != 8 {
+			r.Inconclusive(fmt.Sprint("key exchange with the target failed: ", err))
+			return
+		}
+		uc, err := peer.NewUDPClient(blockIP(r, 11, 30+i))
+		if err != nil {
+			r.Inconclusive(err.Error())
+			return
+		}
+		defer uc.Close()
+		ss = append(ss, &sess{d: d, uc: uc})
+	}
+	dst := netip.AddrPortFrom(srv, 123)
+	one := func(s *sess, cookie []byte, np int, rng *rand.Rand) ([][]byte, string) {
+		hdr := peer.NTPRequest(peer.UniqueTime64())
+		uid := randBytes(rng, 32)
+		pkt := peer.NTSRequest(hdr, uid, cookie, np, s.d.C2sKey)
+		if err := s.uc.Send(dst, pkt); err != nil {
+			return nil, "send: " + err.Error()
+		}
+		tx := binary.BigEndian.Uint64(hdr[40:])
+		_, hit := s.uc.ReadUntil(2*time.Second, func(dg peer.Datagram) bool { return peer.NTPOrigin(dg.Data) == tx })
+		if hit == nil {
+			return nil, "no reply"
+		}
+		cs, problem := peer.NTSOpenResponse(hit.Data, s.d.S2cKey, uid)
+		if problem != "" {
+			return nil, "reply does not authenticate: " + problem
+		}
+		return cs, ""
+	}
+	var wg sync.WaitGroup
+	var arrived atomic.Int32
+	for i, s := range ss {
+		wg.Add(1)
+		go func(i int, s *sess) {
+			defer wg.Done()
+			rng := rand.New(rand.NewPCG(uint64(r.Seed()), uint64(7000+i)))
+			cookie := s.d.Cookie[0]
+			for k := 0; k < rounds; k++ {
+				if k%8 == 0 { // start the next batch together
+					arrived.Add(1)
+					for spin := 0; arrived.Load() < int32(sessions*(k/8+1)) && spin < 200000; spin++ {
+						runtime.Gosched()
+					}
+				}
+				cs, problem := one(s, cookie, 7, rng)
+				if strings.HasPrefix(problem, "reply does not authenticate") {
+					s.unauth = append(s.unauth, problem)
+				}
+				if problem != "" {
+					s.lost++
+					continue
+				}
+				if len(cs) > 0 {
+					cookie = cs[0]
+					s.fresh = append(s.fresh, cs[1:]...)
+				}
+			}
+		}(i, s)
+	}
+	wg.Wait()
+	// every cookie received is now spent by the session that received it
+	total, bad, lost := 0, 0, 0
+	for i, s := range ss {
+		rng := rand.New(rand.NewPCG(uint64(r.Seed()), uint64(8000+i)))
+		lost += s.lost
+		if len(s.unauth) > 0 {
+			r.Violation("ntp-ip-listener|wrong-reply:reply cannot be authenticated by the requester|concurrent NTS sessions", "conc", map[string]any{"session": i, "problems": s.unauth[:min(3, len(s.unauth))]})
+		}
+		if len(s.fresh) > r.Pick(300, 2500) { // the most recent ones: issued when all sessions were running
+			s.fresh = s.fresh[len(s.fresh)-r.Pick(300, 2500):]
+		}
+		for _, c := range s.fresh {
+			total++
+			r.Eval(1)
+			if _, problem := one(s, c, 0, rng); problem != "" {
+				if !tgt.Alive() {
+					first, frame := tgt.ExitInfo()
+					r.Violation("ntp-ip-listener|panic|concurrent NTS sessions", "conc", map[string]any{"panic": first, "frame": frame})
+					return
+				}
+				bad++
+				if bad <= 3 {
+					r.Violation("ntp-ip-listener|wrong-reply:cookie issued while other sessions were served at the same time does not open to the keys of the session it was sent to", "conc",
+						map[string]any{"session": i, "problem": problem, "cookie": ev.Hex(c)})
+				}
+			}
+		}
+	}
+	r.Set("concurrent_sessions_cookies_spent", total)
+	r.Set("concurrent_sessions_exchanges_lost", lost)
+	if total > 50 && bad == 0 {
+		r.Class("concurrent-sessions:every cookie opens to its own session")
+	}
+	if lost*10 > sessions*rounds {
+		r.Inconclusive(fmt.Sprintf("%d of %d concurrent exchanges went unanswered (machine too busy)", lost, sessions*rounds))
+	}
 }
 
 // ---- leg C: server key rotations in between (key provider aged through its verif hook)
@@ -511,6 +636,13 @@ func c11Rotation(r *ev.Run, block int) {
 			}
 			var elapsed int64
 			for si, dAge := range plan {
+				var slow *tls.Conn
+				if rng.IntN(2) == 0 {
+					if c, err := tls.DialWithDialer(&net.Dialer{Timeout: 3 * time.Second}, "tcp", netip.AddrPortFrom(srv, uint16(ntske.ServerPortIP)).String(),
+						&tls.Config{InsecureSkipVerify: true, MinVersion: tls.VersionTLS13, NextProtos: []string{"ntske/1"}}); err == nil {
+						slow = c
+					}
+				}
 				keys, ok := tgt.Keys(fmt.Sprintf("AGE %d", dAge), 5*time.Second)
 				if !ok {
 					r.Inconclusive("target did not answer the AGE command")
@@ -530,6 +662,34 @@ func c11Rotation(r *ev.Run, block int) {
 						}
 					} else {
 						r.Violation("nts-ke-listener|missing-reply:key exchange failed after the keys aged", sid, map[string]any{"step": si, "error": fmt.Sprint(err)})
+					}
+				}
+				// a slow client: the connection to the key-exchange server is opened (handshake done) before
+				// the keys age, the request is sent afterwards; the cookies are issued then, not at accept time
+				if slow != nil {
+					kr := append(append(peer.KERecord(1, true, []byte{0, 0}), peer.KERecord(4, true, []byte{0, 15})...), peer.KERecord(0, true, nil)...)
+					_ = slow.SetDeadline(time.Now().Add(5 * time.Second))
+					_, werr := slow.Write(kr)
+					resp, _ := io.ReadAll(slow)
+					slow.Close()
+					slow = nil
+					var cs [][]byte
+					for pos := 0; pos+4 <= len(resp); {
+						t := binary.BigEndian.Uint16(resp[pos:]) & 0x7fff
+						l := int(binary.BigEndian.Uint16(resp[pos+2:]))
+						if pos+4+l > len(resp) {
+							break
+						}
+						if t == 5 {
+							cs = append(cs, resp[pos+4:pos+4+l])
+						}
+						pos += 4 + l
+					}
+					r.Eval(1)
+					if werr == nil && len(cs) > 0 {
+						checkSealed("key exchange whose connection was opened before the keys aged", cs, map[string]any{"step": si, "aged_by_h": dAge / hour, "elapsed_h": elapsed / hour})
+					} else {
+						r.Class("slow key exchange: no cookies (connection timed out or refused)")
 					}
 				}
 				// spend up to three cookies of different ages
